@@ -236,6 +236,7 @@ _BUF_NOTE = ("Trusted: Coq kernel, extraction (ExtrOcamlBasic), OCaml checker gl
              "Model/WaitCond.v, not in the Buffer model (a parked Get is a pending operation). Go int offsets unbounded.")
 
 PROPS["C01"] = dict(
+    pre_coq=[lambda: buffer_pre_coq()],   # C01_get_source_* / C01_commit_source_*: Buffer.get and Buffer.commit translated from the current buffer.go
     rule="BUFK1: seeded scripts of Put(batch 0-3)/NewConsumer/Get/Commit/Rollback/Diff/Size/Slice/Settled/Close/Range on a real Buffer (cooldown 0, "
          "Default/Fixed/custom cleaners), blocking calls left pending and probed at quiescent points; the recorded history (invocation/return ticks) "
          "must be a history of the extracted model with cleaner/shutdown steps interleaved freely. non-trivial = history in which >= 2 consumers "
@@ -367,7 +368,7 @@ PROPS["C13"] = dict(
             corr_stage("C13ALIAS", 200, 2000, validate=False)],
 )
 PROPS["C03"] = dict(
-    pre_coq=[lambda: c03_pre_coq()],
+    pre_coq=[lambda: c03_pre_coq(), lambda: buffer_pre_coq()],   # C03_cleanup_source_* / C03_consumer_offsets_source_*: cleanupLogic, consumerOffsets translated from the current buffer.go
     level_text="Theorems (Properties/C03.v): DefaultCleaner/FixedBufferCleaner/cleanupLogic clamp specifications for every size and offset list over Z; "
                "on the Buffer model, for every schedule: the default cleaner never moves the base past a registered consumer's committed offset (so no "
                "offset error for a consumer that keeps reading) and not at all without consumers; ANY cleaner only advances the base; an evicted consumer "
@@ -468,6 +469,31 @@ def pure_pre_coq(which):
         return "pure_gen(%s): translated from %s (unchanged)" % (which, vlib.REPO)
     os.replace(tmp, out)
     return "pure_gen(%s): translated from %s (updated)" % (which, vlib.REPO)
+
+def buffer_pre_coq():
+    """Translate the arithmetic kernel of the Buffer - buffer.go (*Buffer).consumerOffsets, get, commit, cleanupLogic, with the
+    struct declaration of Buffer - from the current source into the record-state embedding Model/GoFrag3.v:
+    coq/Gen/ImplBuffer.v (C01: C01_get_source_*, C01_commit_source_*; C03: C03_cleanup_source_*, C03_consumer_offsets_source_*).
+    A method that leaves the fragment breaks the obligations of both properties: the file is overwritten with one that cannot
+    compile, a translation of an older tree is never used."""
+    ok, outt = vlib.build_tools()
+    exe = os.path.join(vlib.CACHE, "tools", "gotr")
+    out = os.path.join(vlib.COQ, "Gen", "ImplBuffer.v")
+    os.makedirs(os.path.dirname(out), exist_ok=True)
+    tmp = out + ".tmp.%d" % os.getpid()
+    rc, txt = (1, outt) if not ok else vlib.sh([exe, "-set", "buffer", "-repo", vlib.REPO, "-out", tmp], timeout=120)
+    if rc != 0 or not os.path.exists(tmp):
+        if os.path.exists(tmp):
+            os.remove(tmp)
+        # never leave a translation of an older tree in place
+        open(out, "w").write("(* gotr -set buffer failed on the current source: see the check log *)\nDefinition translation_failed : nat := true.\n")
+        return "buffer_gen: gotr [FAILED rc=%d]\n%s" % (rc, txt[-1500:])
+    new = open(tmp).read()
+    if os.path.exists(out) and open(out).read() == new:
+        os.remove(tmp)
+        return "buffer_gen: get, commit, cleanupLogic, consumerOffsets translated from %s (unchanged)" % vlib.REPO
+    os.replace(tmp, out)
+    return "buffer_gen: get, commit, cleanupLogic, consumerOffsets translated from %s (updated)" % vlib.REPO
 
 LIBFILES = ("attempt.go", "bigbuff.go", "buffer.go", "callable.go", "chancaster.go", "channel.go", "chanpubsub.go", "consumer.go",
             "context.go", "exclusive.go", "notifier.go", "retry.go", "sync.go", "worker.go", "workers.go")
